@@ -322,6 +322,17 @@ def build_tissue(spec, frame=0):
         eid = emap[i]
         edges.append((eid, vmap[a], vmap[b]))
         gt[eid] = ridge_gt[rk]
+    if spec.get("store_order") == "shuffle":
+        # the order in which vertices, edges and cells are stored (dict insertion order downstream)
+        sr = _rng(spec, "store")
+        ck = list(cells)
+        sr.shuffle(ck)
+        cells = {k: cells[k] for k in ck}
+        pressure = {k: pressure[k] for k in ck}
+        vk = list(verts)
+        sr.shuffle(vk)
+        verts = {k: verts[k] for k in vk}
+        sr.shuffle(edges)
     meta = {"n_cells": len(cells), "n_verts": len(verts), "n_edges": len(edges),
             "n_ridges": len(rkeys),
             "junctions": sorted(vmap[v] for v in used_v)}
@@ -408,6 +419,8 @@ def random_spec(rng, *, max_side=6, kmax=40, for_solver=False, frames=1, min_rid
         if spec.get("lattice") == "quad" and spec.get("jitter") == 0.0 and rng.random() < 0.6:
             spec["rot"] = rng.choice([0.0, 0.0, round(math.pi / 2, 4)])   # axis-parallel: exactly mirror-symmetric coordinates
             spec["scale"] = rng.choice([10.0, 24.0, 40.0])
+        if rng.random() < 0.3:
+            spec["store_order"] = "shuffle"
         spec["orient"] = rng.choice(["ccw", "cw", "mixed"])
         spec["ids"] = rng.choice(["contig0", "contig1", "gaps", "shuffle", "gaps", "huge"])
         if frames > 1:
